@@ -69,7 +69,7 @@ def gen(rng, tier):
                 if rng.random() < 0.6:
                     ops.append(["makegateway", f"popen//id={gid}"])
             elif mine or True:
-                ops.append(["gwexit_id", rng.choice(IDPOOL)])
+                ops.append(["gwexit_id", rng.choice(IDPOOL)] + (["twice"] if rng.random() < 0.3 else []))
             ops.append(["groupsnap"])
             if rng.random() < 0.3:
                 ops.append(["yield", rng.randrange(1, 6)])
@@ -311,7 +311,10 @@ def oracle(case, res, hist):
     for aid, oi, op, s1, s2, r in hist.ops(("groupsnap",)):
         if r is None or r[0] != "snap":
             continue
-        _, ids, n, by_index, member, by_id, bogus = r
+        _, ids, n, by_index, member, by_id, bogus = r[:7]
+        for gid, said, is_member in (r[7] if len(r) > 7 else ()):
+            V.append(v("object-membership-disagrees", "group",
+                       f"gateway object with id {gid}: 'in'/lookup says {said}, identity in iteration says {is_member}"))
         if len(set(ids)) != len(ids):
             dup = [x for x in ids if ids.count(x) > 1][0]
             calls = [i for i, m in enumerate(mk) if m[3] == dup]
